@@ -305,7 +305,7 @@ func c06TSReadsDifferently(code string, tsx bool) bool {
 }
 
 func runC06(c *Check) {
-	c.Rule = "relation 1: 80 type positions x (115 type forms + hole-forms x forms nested once) x {ts,tsx,mts}: Transform(typed) == Transform(untyped twin produced by deleting the bracketed type syntax), also with minify-syntax; relation 2: the C01 expression/statement space and every TypeScript contextual keyword used as a JavaScript identifier in 29 follower contexts compile byte-identically under js vs ts and jsx vs tsx; relation 3: enums/namespaces/parameter properties/class-field semantics executed against generator-side reference values; distinct = distinct outputs"
+	c.Rule = "relation 1: 80 type positions x (115 type forms + hole-forms x forms nested once) x {ts,tsx,mts}: Transform(typed) == Transform(untyped twin produced by deleting the bracketed type syntax), also with minify-syntax; relation 2: the C01 expression/statement space and every TypeScript contextual keyword used as a JavaScript identifier in 29 follower contexts compile byte-identically under js vs ts and jsx vs tsx; relation 3: enums/namespaces/parameter properties/class-field semantics executed against generator-side reference values; distinct = distinct outputs; 16 import/export statement forms x 10 tsconfig import-elision settings x ts/tsx x minify (differential and documented expectations); assignments to exports of sibling namespace blocks"
 	c.Assump = []string{"the typed programs are valid TypeScript by construction (vetted once against esbuild on the unchanged tree; no independent TypeScript parser is installed)", "experimentalDecorators is not covered"}
 	t0 := time.Now()
 	c06Erase(c)
